@@ -466,4 +466,287 @@ theorem allEdges_nodup (base H W : Nat) : (Frame.fresh base H W).allEdges.Nodup 
   rw [this]
   exact List.Nodup.map (fun a b h => by injection h) (allSegs_map_var_nodup base H W)
 
+/-! ### Duality -/
+
+/-- How a client reads the border `b` of an inner frame: `inner.horizontal[y, x]` / `inner.vertical[y, x]`. -/
+def border (g : InnerFrame) : Border → Py Expr
+  | .hb y x => g.hborder (y : Int) (x : Int)
+  | .vb y x => g.vborder (y : Int) (x : Int)
+
+theorem dual_dual (f : Frame) : f.dual.dual = f := by
+  cases f; rfl
+
+theorem inner_dual_dual (g : InnerFrame) (h1 : 1 ≤ g.height) (h2 : 1 ≤ g.width) : g.dual.dual = g := by
+  obtain ⟨h, w, a, b⟩ := g
+  simp only [InnerFrame.dual, Frame.dual, InnerFrame.mk.injEq, and_true] at h1 h2 ⊢
+  omega
+
+theorem dual_border (base H W : Nat) (s : Seg) (hs : s.Valid H W) :
+    border (Frame.fresh base H W).dual s.dual = .ok (segExpr base H W s) := by
+  cases s with
+  | h y x => exact fresh_h base H W y x hs.1 hs.2
+  | v y x => exact fresh_v base H W y x hs.1 hs.2
+
+theorem seg_dual_geom (H W : Nat) (s : Seg) :
+    (s.Valid H W ↔ s.dual.Valid (H + 1) (W + 1)) ∧ s.dual.sides = s.ends ∧ s.dual.dual = s := by
+  cases s <;> simp only [Seg.dual, Border.dual, Seg.Valid, Border.Valid, Seg.ends, Border.sides, and_true] <;> omega
+
+theorem border_dual_geom (H W : Nat) (b : Border) :
+    (b.Valid (H + 1) (W + 1) ↔ b.dual.Valid H W) ∧ b.dual.ends = b.sides ∧ b.dual.dual = b := by
+  cases b <;> simp only [Seg.dual, Border.dual, Seg.Valid, Border.Valid, Seg.ends, Border.sides, and_true] <;> omega
+
+theorem inner_fresh_dual (base H W : Nat) :
+    (InnerFrame.fresh base (H + 1) (W + 1)).dual = frame2 H W (base + H * (W + 1)) base := rfl
+
+/-- The variables of `BoolInnerGridFrame(solver, H+1, W+1)` sit on the borders `Border.var` says. -/
+theorem inner_border (base H W : Nat) (b : Border) (hb : b.Valid (H + 1) (W + 1)) :
+    border (InnerFrame.fresh base (H + 1) (W + 1)) b = .ok (.bvar (b.var base (H + 1) (W + 1))) := by
+  cases b with
+  | hb y x =>
+    have := frame2_v H W (base + H * (W + 1)) base y x (by have := hb.1; omega) (by have := hb.2; omega)
+    rw [← inner_fresh_dual] at this
+    simp only [border, InnerFrame.hborder, Border.var, Nat.add_assoc]
+    exact this
+  | vb y x =>
+    have := frame2_h H W (base + H * (W + 1)) base y x (by have := hb.1; omega) (by have := hb.2; omega)
+    rw [← inner_fresh_dual] at this
+    simp only [border, InnerFrame.vborder, Border.var, Nat.add_sub_cancel, Nat.add_assoc]
+    simp only [Nat.add_assoc] at this
+    exact this
+
+/-- The dual frame of an inner frame addresses, at the position of the segment joining two points, the border
+between the two cells. -/
+theorem inner_dual_getitem (base H W : Nat) (b : Border) (hb : b.Valid (H + 1) (W + 1)) :
+    (InnerFrame.fresh base (H + 1) (W + 1)).dual.getitem b.dual.mid.1 b.dual.mid.2
+      = .ok (.bvar (b.var base (H + 1) (W + 1))) := by
+  cases b with
+  | hb y x =>
+    have h1 := hb.1
+    have h2 := hb.2
+    show (InnerFrame.fresh base (H + 1) (W + 1)).dual.getitem ((y + (y + 1) : Nat) : Int) ((x + x : Nat) : Int)
+      = .ok (.bvar (base + y * (W + 1) + x))
+    rw [inner_fresh_dual, frame2_getitem, if_pos (by omega), if_neg (by omega), if_pos (by omega)]
+    have e1 : (((y + (y + 1) : Nat) : Int) / 2).toNat = y := by omega
+    have e2 : (((x + x : Nat) : Int) / 2).toNat = x := by omega
+    rw [e1, e2, Nat.add_assoc]
+  | vb y x =>
+    have h1 := hb.1
+    have h2 := hb.2
+    show (InnerFrame.fresh base (H + 1) (W + 1)).dual.getitem ((y + y : Nat) : Int) ((x + (x + 1) : Nat) : Int)
+      = .ok (.bvar (base + H * (W + 1) + y * W + x))
+    rw [inner_fresh_dual, frame2_getitem, if_pos (by omega), if_pos (by omega)]
+    have e1 : (((y + y : Nat) : Int) / 2).toNat = y := by omega
+    have e2 : (((x + (x + 1) : Nat) : Int) / 2).toNat = x := by omega
+    rw [e1, e2]
+    simp only [Nat.add_assoc]
+
+/-! ### Assembly: the property statements -/
+
+theorem getitem_of_seg (base H W : Nat) (s : Seg) (hs : s.Valid H W) :
+    (Frame.fresh base H W).getitem s.mid.1 s.mid.2 = .ok (.bvar (s.var base H W)) := by
+  cases s with
+  | h y x =>
+    have h1 := hs.1
+    have h2 := hs.2
+    show (Frame.fresh base H W).getitem ((y + y : Nat) : Int) ((x + (x + 1) : Nat) : Int) = _
+    rw [getitem_fresh, if_pos (by omega), if_pos (by omega)]
+    have e1 : (((y + y : Nat) : Int) / 2).toNat = y := by omega
+    have e2 : (((x + (x + 1) : Nat) : Int) / 2).toNat = x := by omega
+    rw [e1, e2]; rfl
+  | v y x =>
+    have h1 := hs.1
+    have h2 := hs.2
+    show (Frame.fresh base H W).getitem ((y + (y + 1) : Nat) : Int) ((x + x : Nat) : Int) = _
+    rw [getitem_fresh, if_pos (by omega), if_neg (by omega), if_pos (by omega)]
+    have e1 : (((y + (y + 1) : Nat) : Int) / 2).toNat = y := by omega
+    have e2 : (((x + x : Nat) : Int) / 2).toNat = x := by omega
+    rw [e1, e2]; rfl
+
+theorem getitem_no_seg (base H W : Nat) (Y X : Int) (h : ∀ s : Seg, s.Valid H W → s.mid ≠ (Y, X)) :
+    (Frame.fresh base H W).getitem Y X = .error .indexError := by
+  rw [getitem_fresh]
+  by_cases hr : 0 ≤ Y ∧ Y ≤ 2 * (H : Int) ∧ 0 ≤ X ∧ X ≤ 2 * (W : Int)
+  · rw [if_pos hr]
+    by_cases h1 : Y % 2 = 0 ∧ X % 2 = 1
+    · exfalso
+      refine h (Seg.h (Y / 2).toNat (X / 2).toNat) ⟨by omega, by omega⟩ ?_
+      simp only [Seg.mid, Seg.ends, Prod.mk.injEq]
+      constructor <;> omega
+    · rw [if_neg h1]
+      by_cases h2 : Y % 2 = 1 ∧ X % 2 = 0
+      · exfalso
+        refine h (Seg.v (Y / 2).toNat (X / 2).toNat) ⟨by omega, by omega⟩ ?_
+        simp only [Seg.mid, Seg.ends, Prod.mk.injEq]
+        constructor <;> omega
+      · rw [if_neg h2]
+  · rw [if_neg hr]
+
+theorem getitem_statement : ∀ (base H W : Nat) (Y X : Int),
+    ((0 ≤ Y ∧ Y ≤ 2 * (H : Int) ∧ 0 ≤ X ∧ X ≤ 2 * (W : Int)) → Y % 2 = 0 → X % 2 = 1 →
+        (Frame.fresh base H W).getitem Y X = .ok (.bvar (geomH base H W (Y / 2).toNat (X / 2).toNat))) ∧
+    ((0 ≤ Y ∧ Y ≤ 2 * (H : Int) ∧ 0 ≤ X ∧ X ≤ 2 * (W : Int)) → Y % 2 = 1 → X % 2 = 0 →
+        (Frame.fresh base H W).getitem Y X = .ok (.bvar (geomV base H W (Y / 2).toNat (X / 2).toNat))) ∧
+    ((¬ (0 ≤ Y ∧ Y ≤ 2 * (H : Int) ∧ 0 ≤ X ∧ X ≤ 2 * (W : Int)) ∨ Y % 2 = X % 2) →
+        (Frame.fresh base H W).getitem Y X = .error .indexError) ∧
+    (∀ s : Seg, s.Valid H W → s.mid = (Y, X) →
+        (Frame.fresh base H W).getitem Y X = .ok (.bvar (s.var base H W))) ∧
+    ((∀ s : Seg, s.Valid H W → s.mid ≠ (Y, X)) → (Frame.fresh base H W).getitem Y X = .error .indexError) ∧
+    (Frame.fresh base H W).getitem Y X =
+      (match segAt H W Y X with
+       | some s => .ok (.bvar (s.var base H W))
+       | none => .error .indexError) := by
+  intro base H W Y X
+  refine ⟨?_, ?_, ?_, ?_, getitem_no_seg base H W Y X, ?_⟩
+  · intro hr h1 h2
+    rw [getitem_fresh, if_pos hr, if_pos ⟨h1, h2⟩]
+  · intro hr h1 h2
+    rw [getitem_fresh, if_pos hr, if_neg (by omega), if_pos ⟨h1, h2⟩]
+  · intro h
+    rw [getitem_fresh]
+    by_cases hr : 0 ≤ Y ∧ Y ≤ 2 * (H : Int) ∧ 0 ≤ X ∧ X ≤ 2 * (W : Int)
+    · rw [if_pos hr, if_neg (by omega), if_neg (by omega)]
+    · rw [if_neg hr]
+  · intro s hs hm
+    have := getitem_of_seg base H W s hs
+    rw [hm] at this
+    exact this
+  · cases hseg : segAt H W Y X with
+    | none =>
+      apply getitem_no_seg
+      intro s hs hm
+      unfold segAt at hseg
+      rw [List.find?_eq_none] at hseg
+      exact hseg s ((mem_allSegs H W s).mpr hs) (by simpa using hm)
+    | some s =>
+      unfold segAt at hseg
+      have hm : s.mid = (Y, X) := by simpa using List.find?_some hseg
+      have hs : s.Valid H W := (mem_allSegs H W s).mp (List.mem_of_find?_eq_some hseg)
+      have := getitem_of_seg base H W s hs
+      rw [hm] at this
+      exact this
+
+theorem cell_statement : ∀ (base H W : Nat) (y x : Int),
+    (CellValid H W (y, x) →
+      (Frame.fresh base H W).cellNeighbors y x =
+        .ok [.bvar (geomH base H W y.toNat x.toNat), .bvar (geomH base H W (y.toNat + 1) x.toNat),
+             .bvar (geomV base H W y.toNat x.toNat), .bvar (geomV base H W y.toNat (x.toNat + 1))] ∧
+      (∀ s : Seg, s ∈ cellSegs y.toNat x.toNat ↔ (s.Valid H W ∧ s.Bounds (y, x))) ∧
+      (cellSegs y.toNat x.toNat).Nodup ∧
+      (segsOfCell H W (y, x)).Perm (cellSegs y.toNat x.toNat)) ∧
+    (¬ CellValid H W (y, x) → (Frame.fresh base H W).cellNeighbors y x = .error .indexError) := by
+  intro base H W y x
+  constructor
+  · intro hc
+    have hc' : 0 ≤ y ∧ y < (H : Int) ∧ 0 ≤ x ∧ x < (W : Int) := hc
+    obtain ⟨y', rfl⟩ := Int.eq_ofNat_of_zero_le hc'.1
+    obtain ⟨x', rfl⟩ := Int.eq_ofNat_of_zero_le hc'.2.2.1
+    refine ⟨?_, ?_, cellSegs_nodup _ _, ?_⟩
+    · rw [cell_fresh, if_pos hc']; rfl
+    · intro s
+      simp only [Int.toNat_natCast]
+      exact mem_cellSegs H W y' x' (by omega) (by omega) s
+    · simp only [Int.toNat_natCast]
+      exact segsOfCell_perm H W y' x' (by omega) (by omega)
+  · intro hc
+    have hc' : ¬ (0 ≤ y ∧ y < (H : Int) ∧ 0 ≤ x ∧ x < (W : Int)) := hc
+    rw [cell_fresh, if_neg hc']
+
+theorem vertex_statement : ∀ (base H W : Nat) (y x : Int),
+    ((0 ≤ y ∧ y ≤ (H : Int) ∧ 0 ≤ x ∧ x ≤ (W : Int)) →
+      (Frame.fresh base H W).vertexNeighbors y x =
+        .ok ((pointSegs H W y.toNat x.toNat).map fun s => .bvar (s.var base H W)) ∧
+      (∀ s : Seg, s ∈ pointSegs H W y.toNat x.toNat ↔ (s.Valid H W ∧ s.Touches (y.toNat, x.toNat))) ∧
+      (pointSegs H W y.toNat x.toNat).Nodup ∧
+      (segsOfPoint H W (y.toNat, x.toNat)).Perm (pointSegs H W y.toNat x.toNat)) ∧
+    (¬ (0 ≤ y ∧ y ≤ (H : Int) ∧ 0 ≤ x ∧ x ≤ (W : Int)) →
+      (Frame.fresh base H W).vertexNeighbors y x = .error .indexError) := by
+  intro base H W y x
+  constructor
+  · intro hc
+    obtain ⟨y', rfl⟩ := Int.eq_ofNat_of_zero_le hc.1
+    obtain ⟨x', rfl⟩ := Int.eq_ofNat_of_zero_le hc.2.2.1
+    refine ⟨?_, ?_, pointSegs_nodup _ _ _ _, ?_⟩
+    · rw [vertex_fresh, if_pos hc]; rfl
+    · intro s
+      simp only [Int.toNat_natCast]
+      exact mem_pointSegs H W y' x' (by omega) (by omega) s
+    · simp only [Int.toNat_natCast]
+      exact segsOfPoint_perm H W y' x' (by omega) (by omega)
+  · intro hc
+    rw [vertex_fresh, if_neg hc]
+
+theorem graph_statement : ∀ (base H W : Nat), ∃ (edges : List Expr) (g : Graph),
+    fromGridFrame (Frame.fresh base H W) = .ok (edges, g) ∧
+    edges.length = g.edges.length ∧ g.n = (H + 1) * (W + 1) ∧
+    (∀ i, i < edges.length → ∃ s : Seg, s.Valid H W ∧
+        edges[i]? = some (.bvar (s.var base H W)) ∧
+        g.edges[i]? = some (ptIndex W s.ends.1, ptIndex W s.ends.2)) := by
+  intro base H W
+  refine ⟨_, _, fromGridFrame_fresh base H W, by simp only [List.length_map], rfl, ?_⟩
+  intro i hi
+  rw [List.length_map] at hi
+  refine ⟨(graphSegs H W)[i], graphSegs_valid H W _ (List.getElem_mem hi), ?_, ?_⟩
+  · rw [List.getElem?_map, List.getElem?_eq_getElem hi]; rfl
+  · show ((graphSegs H W).map (segEdge W))[i]? = _
+    rw [List.getElem?_map, List.getElem?_eq_getElem hi]; rfl
+
+theorem points_statement : ∀ (H W : Nat),
+    (∀ p q : Pt, PtValid H W p → PtValid H W q → ptIndex W p = ptIndex W q → p = q) ∧
+    (∀ p : Pt, PtValid H W p → ptIndex W p < (H + 1) * (W + 1)) ∧
+    (∀ s : Seg, s.Valid H W → PtValid H W s.ends.1 ∧ PtValid H W s.ends.2 ∧ s.ends.1 ≠ s.ends.2) ∧
+    (∀ (base : Nat) (s t : Seg), s.Valid H W → t.Valid H W → s.var base H W = t.var base H W → s = t) ∧
+    (∀ (base : Nat) (s : Seg), s.Valid H W → base ≤ s.var base H W ∧ s.var base H W < base + Frame.numVars H W) ∧
+    (∀ s t : Seg, s.mid = t.mid → s = t) ∧
+    (∀ s : Seg, 2 * s.mid.1 = (2 * s.sides.1.1 + 1) + (2 * s.sides.2.1 + 1) ∧
+                2 * s.mid.2 = (2 * s.sides.1.2 + 1) + (2 * s.sides.2.2 + 1)) := by
+  intro H W
+  exact ⟨ptIndex_inj H W, ptIndex_lt H W, ends_valid H W, fun base => var_inj base H W,
+    fun base => var_range base H W, mid_inj, mid_sides⟩
+
+theorem iter_statement : ∀ (base H W : Nat),
+    (Frame.fresh base H W).allEdges = (Frame.fresh base H W).horizontal.data ++ (Frame.fresh base H W).vertical.data ∧
+    (Frame.fresh base H W).horizontal = ⟨H + 1, W, (hSegs H W).map fun s => .bvar (s.var base H W)⟩ ∧
+    (Frame.fresh base H W).vertical = ⟨H, W + 1, (vSegs H W).map fun s => .bvar (s.var base H W)⟩ ∧
+    (∀ y x : Nat, y ≤ H → x < W →
+      (Frame.fresh base H W).horizontal.get (y : Int) (x : Int) = .ok (.bvar (geomH base H W y x))) ∧
+    (∀ y x : Nat, y < H → x ≤ W →
+      (Frame.fresh base H W).vertical.get (y : Int) (x : Int) = .ok (.bvar (geomV base H W y x))) ∧
+    (∀ s : Seg, s ∈ allSegs H W ↔ s.Valid H W) ∧ (allSegs H W).Nodup ∧
+    (Frame.fresh base H W).allEdges.Nodup ∧
+    (∀ edges g, fromGridFrame (Frame.fresh base H W) = .ok (edges, g) → (Frame.fresh base H W).allEdges.Perm edges) := by
+  intro base H W
+  refine ⟨rfl, fresh_horizontal base H W, fresh_vertical base H W, fresh_h base H W, fresh_v base H W,
+    mem_allSegs H W, allSegs_nodup H W, allEdges_nodup base H W, ?_⟩
+  intro edges g h
+  rw [fromGridFrame_fresh] at h
+  injection h with h
+  injection h with h1 h2
+  subst h1
+  rw [allEdges_fresh]
+  exact ((graphSegs_perm H W).map _).symm
+
+theorem dual_statement :
+    (∀ f : Frame, f.dual.height = f.height + 1 ∧ f.dual.width = f.width + 1 ∧
+        f.dual.horizontal = f.vertical ∧ f.dual.vertical = f.horizontal) ∧
+    (∀ g : InnerFrame, g.dual.height = g.height - 1 ∧ g.dual.width = g.width - 1 ∧
+        g.dual.horizontal = g.vertical ∧ g.dual.vertical = g.horizontal) ∧
+    (∀ f : Frame, f.dual.dual = f) ∧
+    (∀ g : InnerFrame, 1 ≤ g.height → 1 ≤ g.width → g.dual.dual = g) ∧
+    (∀ f : Frame, f.dual.iter = f.allEdges) ∧
+    (∀ (H W : Nat) (s : Seg),
+        (s.Valid H W ↔ s.dual.Valid (H + 1) (W + 1)) ∧ s.dual.sides = s.ends ∧ s.dual.dual = s) ∧
+    (∀ (H W : Nat) (b : Border),
+        (b.Valid (H + 1) (W + 1) ↔ b.dual.Valid H W) ∧ b.dual.ends = b.sides ∧ b.dual.dual = b) ∧
+    (∀ (base H W : Nat) (s : Seg), s.Valid H W →
+        border (Frame.fresh base H W).dual s.dual = .ok (.bvar (s.var base H W))) ∧
+    (∀ (base H W : Nat) (b : Border), b.Valid (H + 1) (W + 1) →
+        border (InnerFrame.fresh base (H + 1) (W + 1)) b = .ok (.bvar (b.var base (H + 1) (W + 1))) ∧
+        (InnerFrame.fresh base (H + 1) (W + 1)).dual.getitem b.dual.mid.1 b.dual.mid.2
+          = .ok (.bvar (b.var base (H + 1) (W + 1)))) := by
+  refine ⟨fun f => ⟨rfl, rfl, rfl, rfl⟩, fun g => ⟨rfl, rfl, rfl, rfl⟩, dual_dual, inner_dual_dual, ?_,
+    seg_dual_geom, border_dual_geom, dual_border, fun base H W b hb => ⟨inner_border base H W b hb, inner_dual_getitem base H W b hb⟩⟩
+  intro f
+  unfold InnerFrame.iter
+  rw [dual_dual]
+
 end Cspuz.Proofs.C14
